@@ -67,6 +67,15 @@ pub fn malform(r: &mut Rng, e: &mut EchoReq) -> Option<String> {
                     (1, "a%c3%28"),
                     (1, "al%80ice"),
                     (1, "%ed%a0%80"),
+                    // values that read like serde's own error texts (the
+                    // refusal quotes the value: nothing may key on its text)
+                    (2, "missing%20field"),
+                    (2, "missing%20field%20%60i%60"),
+                    (3, "missing%20field%20%60b%60"),
+                    (4, "unknown%20variant"),
+                    (4, "missing%20field%20%60e%60"),
+                    (2, "invalid%20type:%20string"),
+                    (3, "duplicate%20field%20%60b%60"),
                     (2, "abc"),
                     (2, "9223372036854775808"),
                     (2, "-9223372036854775809"),
